@@ -19,7 +19,7 @@ from harness.common import Report, run_tlc, subdir, pmap
 from harness.parsepipe import with_timeout, Timeout
 
 PROP = "C19"
-CAP = 3
+CAP = 8     # above the explored depth: the process-wide cap on open-ended repetitions (a generation limit) never binds
 
 PARTIES = '''
 class A(FandangoParty):
@@ -98,8 +98,11 @@ def rand_protocol(rnd, three_parties=False):
     types = []
 
     def fresh(snd=None):
-        t = "m%d" % (len(types) + 1)
-        types.append(t)
+        if types and rnd.random() < 0.3:
+            t = rnd.choice(types)      # a message type used again, possibly travelling the other way
+        else:
+            t = "m%d" % (len(types) + 1)
+            types.append(t)
         # the fuzzer-side party A takes part in every message: a message between two external parties is invisible to it
         snd = snd or rnd.choice(parties)
         rcp = rnd.choice([p for p in parties if p != snd]) if snd == "A" else "A"
@@ -229,7 +232,7 @@ def run(tier, seed):
     gs = {}
     for name, mk, types in FIXED:
         gs[len(gs) + 1] = assign_ids({"start": "<start>", "rules": mk(), "types": types})
-    n = 22 if tier == "quick" else 400
+    n = 60 if tier == "quick" else 600
     for k in range(n):
         gs[len(gs) + 1] = rand_protocol(rnd, three_parties=(k % 3 == 2))
     maxd = 5 if tier == "quick" else 6
@@ -280,7 +283,7 @@ def run(tier, seed):
     rep.sample({"protocol": jobs[0][0], "next_after_empty": sorted(jobs[0][2].get((), []))})
     rep.assumptions += ["the empty history is not asserted to be (in)complete (the code special-cases it); protocols have no empty interaction",
                         "repetition bodies that start with an optional element are excluded (prefix-mode non-termination, finding F17)",
-                        "open-ended repetitions are capped at %d on both sides" % CAP]
+                        "open-ended repetitions are unrolled up to %d iterations on both sides, more than any explored history contains" % CAP]
     return rep.finish()
 
 
